@@ -2,9 +2,11 @@ package main
 
 import (
 	"fmt"
+	"go/constant"
 	"go/token"
 	"go/types"
 	"sort"
+	"strings"
 
 	"golang.org/x/tools/go/ssa"
 )
@@ -126,6 +128,29 @@ var ruleModeGuard = &Rule{
 				srcs = append(srcs, s)
 			}
 		}
+		// uses of initialised sentinel variables of class Verbose count as raise sites too
+		var scopeFns []*ssa.Function
+		for fn := range scope {
+			scopeFns = append(scopeFns, fn)
+		}
+		sort.Slice(scopeFns, func(i, j int) bool { return scopeFns[i].String() < scopeFns[j].String() })
+		for _, fn := range scopeFns {
+			for _, b := range fn.Blocks {
+				for _, ins := range b.Instrs {
+					u, ok := ins.(*ssa.UnOp)
+					if !ok || u.Op != token.MUL {
+						continue
+					}
+					g, ok := u.X.(*ssa.Global)
+					if !ok || g.Object() == types.Object(p.A.ErrVerbose) || !isErrorType(u.Type()) {
+						continue
+					}
+					if e.sentinelClass(g) == "Verbose" {
+						srcs = append(srcs, &ErrSrc{Class: "Verbose", Text: "sentinel " + g.Name(), Instr: u, Fn: fn})
+					}
+				}
+			}
+		}
 		sort.Slice(srcs, func(i, j int) bool {
 			if srcs[i].Fn.String() != srcs[j].Fn.String() {
 				return srcs[i].Fn.String() < srcs[j].Fn.String()
@@ -151,6 +176,11 @@ var ruleModeGuard = &Rule{
 				if c, ok := f.Cond.(*ssa.Call); ok && p.modePredicate(c.Call.StaticCallee()) == "lax" && !f.Truth {
 					guard = "only where " + c.Call.StaticCallee().Name() + "() is false (strict mode)"
 				}
+			}
+			byFlag := strings.HasPrefix(guard, "only where structural errors")
+			if kind := targets[s.Fn]; guard != "" && !byFlag && (kind == "KeyNode" || kind == "ConstAnyKey") {
+				out.viol(key, p.pos(s.Instr.Pos()), fnName(s.Fn), "a member accessor raises its structural error whenever the path is strict, without consulting "+ignore.Name()+": below `.**` member accessors must skip the nodes they do not apply to ("+s.Text+")")
+				continue
 			}
 			if guard != "" {
 				nguard++
@@ -178,7 +208,7 @@ func init() {
 	})
 	addProp(&PropSpec{
 		ID:          "C07",
-		Rules:       []string{"R-MODEGUARD", "R-MODEPRED", "R-STATE", "R-PAIR-C", "R-FAILSTOP"},
+		Rules:       []string{"R-MODEGUARD", "R-MODEPRED", "R-ONELEVEL", "R-STATE", "R-PAIR-C", "R-FAILSTOP"},
 		Explanation: "Lax absorbs / strict reports as control dependence: every structural error an accessor step raises is on a branch where strictness is established, the mode predicates depend on the path's flag only, the temporary override below .** is restored on every exit, and a failed (status, error) pair is returned from whatever position of a subscript list or array it arises at.",
 		Decided: []string{"R-FAILSTOP: a failed status, with or without an error value, is returned from whatever position of a list, array or recursive descent it arises at", "R-MODEGUARD: structural errors of accessor steps are guarded by strictness (tabled exceptions: subscript value conversion)",
 			"R-MODEPRED: autoWrap/autoUnwrap/strict predicates and the initial flag are functions of IsLax only",
@@ -188,3 +218,99 @@ func init() {
 		Assumptions: []string{},
 	})
 }
+
+// --- R-ONELEVEL: lax unwrapping goes exactly one level -----------------------------------------
+
+var ruleOneLevel = &Rule{
+	Name: "R-ONELEVEL", NeedSSA: true,
+	Doc: "the function that applies a node to every element of a slice hands a flag to the dispatcher telling it whether an element that is itself an array may be unwrapped again; wherever a step re-applies its own node to the elements of the array it has just unwrapped, that flag is the constant false (a second unwrap would open nested arrays: more than one level); only callers that move on to the next node may pass the mode's auto-unwrap",
+	Run: func(p *Prog) *RuleOut {
+		out := newOut("R-ONELEVEL")
+		disp := p.ssaOf(p.A.Dispatcher)
+		if disp == nil {
+			out.undecided("dispatcher", "-", "", "anchor unresolved")
+			return out
+		}
+		// the dispatcher's unwrap parameter: its last bool parameter
+		dIdx := -1
+		for i, q := range disp.Params {
+			if b, ok := q.Type().Underlying().(*types.Basic); ok && b.Kind() == types.Bool {
+				dIdx = i
+			}
+		}
+		if dIdx < 0 {
+			out.undecided("dispatcher", p.pos(disp.Pos()), fnName(disp), "no bool parameter")
+			return out
+		}
+		// element appliers: a []any parameter and a bool parameter handed to the dispatcher's unwrap
+		type applier struct {
+			fn           *ssa.Function
+			flagI, nodeI int
+		}
+		var apps []applier
+		for _, fn := range p.execFuncs() {
+			hasSlice := false
+			for _, q := range fn.Params {
+				if s, ok := q.Type().Underlying().(*types.Slice); ok && types.IsInterface(s.Elem()) {
+					hasSlice = true
+				}
+			}
+			if !hasSlice {
+				continue
+			}
+			for _, c := range callsTo(fn, disp) {
+				if q, ok := c.Call.Args[dIdx].(*ssa.Parameter); ok {
+					fi, ni := -1, -1
+					for i, fq := range fn.Params {
+						if fq == q {
+							fi = i
+						}
+						if types.Identical(fq.Type(), types.Type(p.A.Node)) {
+							ni = i
+						}
+					}
+					if fi >= 0 && ni >= 0 {
+						apps = append(apps, applier{fn, fi, ni})
+					}
+				}
+			}
+		}
+		out.Counts["element_appliers"] = len(apps)
+		out.Floors["element_appliers"] = 1
+		n := 0
+		ord := ordinals{}
+		for _, ap := range apps {
+			for _, caller := range p.execFuncs() {
+				for _, c := range callsTo(caller, ap.fn) {
+					if q := p.ownNodeParam(c.Call.Args[ap.nodeI], 0); q == nil {
+						continue // moves on to another node: the mode decides
+					}
+					n++
+					key := fmt.Sprintf("%s re-applies its own node through %s #%d", fnName(caller), ap.fn.Name(), ord.next(fnName(caller)))
+					flag := c.Call.Args[ap.flagI]
+					switch {
+					case isConstBool(flag, false):
+						out.ok(key, p.pos(c.Pos()), fnName(caller), "elements are not unwrapped again")
+					case caller == ap.fn && flag == ssa.Value(caller.Params[ap.flagI]):
+						out.ok(key, p.pos(c.Pos()), fnName(caller), "recursion hands its own flag on")
+					default:
+						out.viol(key, p.pos(c.Pos()), fnName(caller), "the step is re-applied to the elements of the array it unwrapped with element unwrapping enabled ("+flag.String()+"): nested arrays are opened to any depth instead of exactly one level")
+					}
+				}
+			}
+		}
+		out.Counts["own_node_reapplications"] = n
+		out.Floors["own_node_reapplications"] = 2
+		return out
+	},
+}
+
+func isConstBool(v ssa.Value, want bool) bool {
+	c, ok := v.(*ssa.Const)
+	if !ok || c.Value == nil || c.Value.Kind() != constant.Bool {
+		return false
+	}
+	return constant.BoolVal(c.Value) == want
+}
+
+func init() { register(ruleOneLevel) }
